@@ -199,8 +199,8 @@ class Order:
             n += 1
             if n > limit:
                 return False
-            ats = [t for t in (atoms_deep(x) | atoms_deep(y)) if tag(t) in ("min", "max", "satsub")]
-            inner = [t for t in ats if not any(tag(u) in ("min", "max", "satsub") for u in atoms_deep(t) if u != t)]
+            ats = [t for t in (atoms_deep(x) | atoms_deep(y)) if tag(t) in ("min", "max", "satsub", "ite")]
+            inner = [t for t in ats if not any(tag(u) in ("min", "max", "satsub", "ite") for u in atoms_deep(t) if u != t)]
             if not inner:
                 o = Order((), self.unsigned)
                 o.ge0 = list(self.ge0) + [as_lin(e) for e in extra]
@@ -211,7 +211,10 @@ class Order:
                 continue
             t = sorted(inner, key=repr)[0]
             p, q = t[1], t[2]
-            if tag(t) == "satsub":
+            if tag(t) == "ite":
+                # ("ite", c, a, b): a when c >= 0, b when c <= -1
+                cases = [(t[2], as_lin(t[1])), (t[3], add(neg(as_lin(t[1])), const(-1)))]
+            elif tag(t) == "satsub":
                 cases = [(sub(p, q), sub(p, q)), (const(0), sub(q, p))]          # (value, fact >= 0)
             elif tag(t) == "max":
                 cases = [(p, sub(p, q)), (q, sub(q, p))]
